@@ -82,7 +82,9 @@ def judge(case, real, extra, cache):
     if writes_then == 0:
         # fault before any output: one complete 500, then close
         want = reference_500(case, cache)
-        swallowed = name == "XO" and not case["cfg"]["logsock"]
+        # the exception that finally propagates is the last one raised (close() in the finally
+        # block replaces an earlier one)
+        swallowed = raised[-1][0] == "XO" and not case["cfg"]["logsock"]
         if case["disc"] is None:
             if wire != want:
                 kf = "kf_c09_oserror_swallowed" if (swallowed and wire == b"") else None
@@ -131,7 +133,7 @@ def run(ctx):
         for what, exp, obs, kf in judge(case, real, extra, cache):
             if kf is None:
                 search_ok = False
-            ctx.report("search:%s:%s" % (what[:40], json.dumps(tag)[:60]), "C09 fails on the real code (%s): %s" % (tag, what),
+            ctx.report("search:%s:%s:%s" % (kf, what[:40], json.dumps(tag)[:60]), "C09 fails on the real code (%s): %s" % (tag, what),
                        {"kind": "search", "case": case, "expected": exp, "observed": obs, "what": what,
                         "failing_input_found": True}, kf_class=kf)
         raised = extra["raised"]
